@@ -332,10 +332,13 @@ func gcAlphabet(tier string) []Op {
 	alpha = append(alpha, removeOps([]int{0, 1})...)
 	alpha = append(alpha, Op{Kind: OpFlush},
 		Op{Kind: OpIdxGC, B: true}, Op{Kind: OpIdxGC, B: false},
-		Op{Kind: OpPriGC, A: 0}, Op{Kind: OpPriGC, A: 50}, Op{Kind: OpPriGC, A: 50, V: 1})
+		Op{Kind: OpPriGC, A: 0}, Op{Kind: OpPriGC, A: 50}, Op{Kind: OpPriGC, A: 50, V: 1},
+		// an index-GC cycle stopped by its time limit in its second file
+		// (the next cycle resumes there)
+		Op{Kind: OpIdxGC, B: false, A: 3})
 	if tier != "quick" {
 		alpha = append(alpha, Op{Kind: OpPriGC, A: 85}, Op{Kind: OpPriGC, A: 101},
-			Op{Kind: OpIdxGC, B: true, A: 2}, Op{Kind: OpIdxGC, B: false, A: 3},
+			Op{Kind: OpIdxGC, B: true, A: 2}, Op{Kind: OpIdxGC, B: false, A: 4},
 			Op{Kind: OpPriGC, A: 0, V: 1}, Op{Kind: OpPriGC, A: 50, V: 2},
 			Op{Kind: OpReopen, A: 0}, Op{Kind: OpReopen, A: 1})
 	}
